@@ -94,6 +94,9 @@ func runC05(p *Program, r *Report) {
 		c04stale(p, r, "C05.stale", fn)
 	}
 	cReaderHandle(p, r, "C05.rhandle")
+	// "whatever bytes it returns are a prefix of that message", also when the read is cut short by Close, CloseNow or a
+	// context: the bytes read before the failure are unmasked (seed C05-R)
+	c04unmask(p, r, "C05.unmask")
 	// a control frame written between two frames of a compressed message carries its own header bits, and its payload is
 	// not a buffer that concurrent callers share outside the frame lock (seeds C05-O, C05-P)
 	shareAs(r, "C05", "C05", func(sub *Report) { c02rsv(p, sub, "C05.rsv") })
